@@ -37,6 +37,15 @@ func c08Workspaces() []c08ws {
 			"b.proto": hdr + "message B { optional int32 x = ; optional int32 y = 2 }\nmessage B2 { int32 z = 1; }\n",
 			"c.proto": hdr + "message C { optional Nope x = 1; }\n",
 		}, []string{"a.proto"}, 3},
+		{"two-warnings", fileSet{
+			"a.proto": "package p;\nmessage A { optional int32 x = 1; }\n",
+			"b.proto": "package p;\nmessage B { optional int32 x = 1; }\n",
+		}, []string{"a.proto", "b.proto"}, 0},
+		{"warning-and-error", fileSet{
+			"a.proto": "package p;\nmessage A { optional int32 x = 1; }\n",
+			"b.proto": hdr + "message B { optional Nope x = 1; }\n",
+			"c.proto": "package p;\nimport \"a.proto\";\nmessage C { optional int32 x = 1; }\n",
+		}, []string{"a.proto", "b.proto", "c.proto"}, 1},
 		{"roots-with-errors", fileSet{
 			"a.proto": hdr + "message A { optional Nope x = 1; }\n",
 			"b.proto": hdr + "message B { optional Nope y = 1; }\n",
